@@ -389,7 +389,11 @@ def structtags(draw, depth=1):
             private.append(host)
             nb = draw(st.integers(1, 8))
             for b in draw(st.permutations(range(8)))[:nb]:
-                bits[next(names)] = [off, b]
+                bname = next(names)
+                if draw(st.integers(0, 9)) == 0:       # an internal BOOL member: decoded values do not carry it, encode must not ask for it
+                    bname = "__" + bname
+                    private.append(bname)
+                bits[bname] = [off, b]
             off += 1
             continue
         name = next(names)
@@ -414,6 +418,8 @@ def structtag_values(draw, t):
         else:
             v[name] = draw(values(mt))
     for name, (boff, bit) in t["bits"].items():
+        if name in private:
+            continue
         v[name] = draw(st.booleans())
         for mname, mt, moff in t["members"]:
             if mname in v and mt["k"] in ("SINT", "INT", "DINT", "USINT", "UINT", "UDINT") and moff <= boff < moff + type_size(mt):
